@@ -240,9 +240,9 @@ func cmdCheck(args []string) int {
 		}
 	}
 	sort.Strings(keys)
-	timeout := 20 * time.Second
+	timeout := time.Duration(20*cpuFactor()) * time.Second
 	if *tier == "thorough" {
-		timeout = 90 * time.Second
+		timeout = time.Duration(90*cpuFactor()) * time.Second
 	}
 	dir, _ := os.MkdirTemp("", "govc")
 	defer os.RemoveAll(dir)
